@@ -53,6 +53,8 @@ Print Assumptions C12_example_deliverable.
    and empty lines between the lines of the statement, delivered right after it), lines holding
    several statements separated by ';' (each its own item, all with the line's number),
    one-line statements with a trailing comment (delivered right after the statement, flagged in-line),
+   statements continued in any character context -- inside a literal too -- under the per-line condition
+   of C04 (no comment found on the line),
    full-line comments with any indentation and empty lines -- any number of them in any order -- is
    delivered by the reader as exactly one item per statement, in source order, each with the exact
    numbers of its first and last physical line, label and construct name split off; comments and
@@ -60,7 +62,7 @@ Print Assumptions C12_example_deliverable.
    the reader reports the end of the input.  No bound on the number of lines.
    (_partial: layouts with character literals, in-line comments, ';', fixed form, preprocessor
    lines and sentinels are tied to this model by the correspondence, not by this theorem.) *)
-From FV Require Import ReaderJoin ReaderItem ReaderFile.
+From FV Require Import ReaderJoin ReaderItem ReaderJoinQ ReaderFile.
 Theorem C12_whole_file_each_statement_once_in_order_partial :
   forall (ign : bool) (ls : list lay), Forall good ls ->
     read_source (flat_map phys ls) true false ign = items ign ls 0.
@@ -87,24 +89,25 @@ Definition ex_file : list lay :=
    LContC (s2t "y = f(&") None None (s2t "y = f(") [CCom (s2t "   ! inside"); CMid (s2t " ") (s2t "1, "); CBlank] (s2t "") (s2t "2)");
    LSemi (s2t "20 a = 1; b = 2 ;c = 3") (Some 20%N) None (s2t "a = 1") [s2t " b = 2 "; s2t "c = 3"]
          [(s2t "b = 2", None, None); (s2t "c = 3", None, None)];
+   LContQ (s2t "w = 'a!b&") None None (s2t "w = 'a!b") (Some "'"%char) [] (s2t "  ") (s2t "c d'");
    LOne (s2t "  call s(1, 2)") None None (s2t "  call s(1, 2)")].
 Example C12_example_whole_file : Forall good ex_file /\
   flat_map phys ex_file = [s2t " 10 nm: x = a +&"; s2t "   & b *&"; s2t "  & c"; s2t "  ! note"; []; s2t "  z = 2 ! set z";
                            s2t "y = f(&"; s2t "   ! inside"; s2t " &1, &"; []; s2t "&2)";
-                           s2t "20 a = 1; b = 2 ;c = 3"; s2t "  call s(1, 2)"] /\
+                           s2t "20 a = 1; b = 2 ;c = 3"; s2t "w = 'a!b&"; s2t "  &c d'"; s2t "  call s(1, 2)"] /\
   items false ex_file 0 = [RLine (s2t "x = a + b * c") (Some 10%N) (Some (s2t "nm")) 1 3;
                            RComment (s2t "! note") 4 4 false; RComment [] 5 5 false;
                            RLine (s2t "z = 2") None None 6 6; RComment (s2t "! set z") 6 6 true;
                            RLine (s2t "y = f(1, 2)") None None 7 11; RComment (s2t "! inside") 8 8 false;
                            RLine (s2t "a = 1") (Some 20%N) None 12 12; RLine (s2t "b = 2") None None 12 12;
-                           RLine (s2t "c = 3") None None 12 12;
-                           RLine (s2t "call s(1, 2)") None None 13 13] /\
+                           RLine (s2t "c = 3") None None 12 12; RLine (s2t "w = 'a!bc d'") None None 13 14;
+                           RLine (s2t "call s(1, 2)") None None 15 15] /\
   items true ex_file 0 = [RLine (s2t "x = a + b * c") (Some 10%N) (Some (s2t "nm")) 1 3;
                           RLine (s2t "z = 2") None None 6 6;
                           RLine (s2t "y = f(1, 2)") None None 7 11;
                           RLine (s2t "a = 1") (Some 20%N) None 12 12; RLine (s2t "b = 2") None None 12 12;
-                          RLine (s2t "c = 3") None None 12 12;
-                          RLine (s2t "call s(1, 2)") None None 13 13] /\
+                          RLine (s2t "c = 3") None None 12 12; RLine (s2t "w = 'a!bc d'") None None 13 14;
+                          RLine (s2t "call s(1, 2)") None None 15 15] /\
   read_source (flat_map phys ex_file) true false false = items false ex_file 0.
 Proof.
   split; [|split; [|split; [|split]]].
@@ -117,6 +120,8 @@ Proof.
     | |- forall _, _ => intros; vm_compute; reflexivity
     | |- Forall _ _ => repeat constructor; first [vm_compute; reflexivity | exact I]
     | |- mids_ok _ => repeat constructor; vm_compute; reflexivity
+    | |- nocom _ _ _ => intros n; vm_compute; reflexivity
+    | |- chain_ok _ _ _ _ => cbn [chain_ok]; eexists; intros n; vm_compute; reflexivity
     | |- _ => vm_compute; reflexivity
     end.
 Qed.
